@@ -150,3 +150,49 @@ func VerifH_CancelUnblocks() {
 	}
 	conn.Close()
 }
+
+// VerifH_CancelWaitingCall: RPC 1 holds the connection (an open stream). RPC 2 (unary or
+// stream, symbolic) is issued and waits for the connection; then RPC 2's own context is
+// cancelled: RPC 2 returns the context's error, RPC 1 is untouched and still works, and
+// after RPC 1 ends the connection serves a further call. Both cancel modes.
+func VerifH_CancelWaitingCall() {
+	tr := &hx.Transport{}
+	conn := NewWithOptions(tr, Options{Manager: drpcmanager.Options{SoftCancel: vrt.Bool("soft")}})
+	enc := hx.ByteEnc{}
+	s1, err := conn.NewStream(hx.NewCtx(), "one", enc)
+	vrt.Assert(err == nil, "RPC 1 starts")
+	ctx2 := hx.NewCtx()
+	var err2 error
+	d2 := false
+	unary := vrt.Bool("unary")
+	go func() {
+		if unary {
+			in := []byte{2}
+			var out []byte
+			err2 = conn.Invoke(ctx2, "two", enc, &in, &out)
+		} else {
+			_, err2 = conn.NewStream(ctx2, "two", enc)
+		}
+		d2 = true
+	}()
+	vrt.Quiesce()
+	vrt.Assert(!d2, "RPC 2 waits while RPC 1 holds the connection")
+	ctx2.Cancel(context.Canceled)
+	vrt.Quiesce()
+	vrt.Assert(d2 && err2 == context.Canceled, "a call waiting for the connection returns the context's error when its context is cancelled")
+	vrt.Assert(!hx.IsClosedCh(conn.Closed()), "cancelling a call that never started leaves the connection open")
+	m := []byte{1}
+	vrt.Assert(s1.MsgSend(&m, enc) == nil, "RPC 1 is unaffected")
+	vrt.Assert(s1.Close() == nil, "RPC 1 closes")
+	tr.Feed(hx.Pkt(drpcwire.KindMessage, 2, 1, false, []byte{0x42}))
+	tr.Feed(hx.Pkt(drpcwire.KindCloseSend, 2, 2, false, nil))
+	in := []byte{3}
+	var out []byte
+	var perr error
+	pd := false
+	go func() { perr = conn.Invoke(hx.NewCtx(), "three", enc, &in, &out); pd = true }()
+	vrt.Quiesce()
+	vrt.Assert(pd && perr == nil && len(out) == 1 && out[0] == 0x42, "a further call on the connection completes")
+	vrt.Cover("cancel-waiting-end")
+	conn.Close()
+}
